@@ -900,3 +900,37 @@ func (c *Ctx) reachCountUnder(p *Program, rule, what string, f *ssa.Function, ar
 	}
 	c.ok(rule, construct, fmt.Sprintf("%d executable call site(s) of %s", len(hits), callee), p.fnPos(f))
 }
+
+// storeReachUnder: under the value assumptions, a store selected by isStore inside f is (wantReached) /
+// is not executable.
+func (c *Ctx) storeReachUnder(p *Program, rule, what string, f *ssa.Function, vas []ValAssume, storeDesc string, isStore func(*ssa.Store) bool, wantReached bool) {
+	if f == nil {
+		c.undecided(rule, what, "anchor function does not resolve", "")
+		return
+	}
+	construct := fname(f) + ": " + what
+	q := &GuardQuery{P: p, Root: f, ValAssumes: vas, MaxDepth: 1}
+	var hits []string
+	q.ObserveStore = func(in *ssa.Function, st *ssa.Store, _ func(ssa.Value) lat) {
+		if in == f && isStore(st) {
+			hits = append(hits, p.pos(st.Pos()))
+		}
+	}
+	r := runGuard(q)
+	for _, va := range vas {
+		if len(r.Sites[va.Name]) == 0 {
+			c.undecided(rule, construct, "value "+va.Name+" not found in the function", p.fnPos(f))
+			return
+		}
+	}
+	hits = uniq(hits)
+	sort.Strings(hits)
+	switch {
+	case wantReached && len(hits) == 0:
+		c.bad(rule, construct, "no "+storeDesc+" is executable under the assumptions", p.fnPos(f))
+	case !wantReached && len(hits) > 0:
+		c.bad(rule, construct, storeDesc+" is executable under the assumptions at "+strings.Join(hits, ", "), p.fnPos(f))
+	default:
+		c.ok(rule, construct, fmt.Sprintf("%d executable %s", len(hits), storeDesc), p.fnPos(f))
+	}
+}
